@@ -31,6 +31,30 @@ claim("C16", "proof",
       "bounded product; Path.parent chain finite (termination of the upward walk assumed).",
       "contract-based deductive verification: AST->VC generation + z3 (loop invariants, ghost state); bounded product stand-in",
       "DESIGN.md §3 C16")
-for _p in ["C01", "C02", "C03", "C04", "C05", "C06", "C07", "C08", "C09", "C10", "C11", "C12", "C13",
+claim("C05", "proof",
+      "Full loop contract on the real wrap_paragraph_lines (ghost word-span tiling; invariants: partition, per-line "
+      "content = join of its span, accounted column, boundedness of the open line, maximality of every finished line, escape "
+      "only at line starts) discharged for every word-length vector, width and column pair with no bound; wrap_paragraph and "
+      "the sentence wrapper are verified modularly against that contract (indents, joining, width passed once, one W call per "
+      "sentence, merge structure); fill_text per paragraph; the hard-break wrapper per segment. Three clauses fail on this "
+      "tree and are recorded as known findings with their residual obligations proved; two further defects found by the "
+      "contracts were repaired (fix: commits).",
+      "words are opaque (free-monoid strings), len_fn additive with len_fn(' ')==1, splitter tokens non-empty and "
+      "strip-stable (assumed of user splitters); strip/join/re.sub by assumed library contracts; the pipeline-level statement "
+      "(every paragraph of every document) is explored only by the bounded sweep.",
+      "contract-based deductive verification: AST->VC generation (loop invariants, ghost state, modular callee contracts) + z3; "
+      "bounded exhaustive small-scope sweep as stand-in for the pipeline level", "DESIGN.md §3 C05")
+claim("C11", "proof",
+      "Sentence splitting (split_sentences_regex: per-word characterisation of where a sentence ends, spans tile the words) "
+      "and the sentence wrapper's per-iteration strongest postcondition (merge into a short last line iff the documented test "
+      "holds, otherwise append; lines before the last are never rewritten; a sentence that follows a line of at least the "
+      "minimum length starts on a new line) are discharged without bound on the real code; forced breaks come from the "
+      "wrap_paragraph_lines contract. The locality consequence is derived by the fold lemma L-locality (meta-lemma) and "
+      "explored on the real wrapper by single-sentence edits.",
+      "heuristic_end_of_sentence is an oracle (uninterpreted predicate); L-locality is an unchecked meta-lemma whose premises "
+      "are the discharged obligations; one clause (carry column) is a known finding with its residual proved.",
+      "contract-based deductive verification: AST->VC generation (loop invariants, ghost state) + z3; bounded edit-locality "
+      "exploration as stand-in for the derived property", "DESIGN.md §3 C11")
+for _p in ["C01", "C02", "C03", "C04", "C06", "C07", "C08", "C09", "C10", "C12", "C13",
            "C17", "C18"]:
     NOT_APPLICABLE[_p] = "check not built yet in this round (planned in DESIGN.md §3); nothing is claimed"
